@@ -10,5 +10,5 @@ CONSTANTS
   MaxPings = 4
   UseSync = FALSE
   Closer = TRUE
-  Defects = {"closeReread", "dispReread", "dispStalePk", "errInSender", "errReread", "errStateRace", "openReread", "pingSelfJoin", "sendNoFinally", "staleFetcher", "syncOpenNoWake"}
+  Defects = {"closeReread", "dispReread", "dispStalePk", "errInSender", "errReread", "errStateRace", "openReread", "pingSelfJoin", "sendNoFinally", "staleFetcher", "syncOpenNoWake", "updDoubleRelease"}
 CHECK_DEADLOCK FALSE
